@@ -68,11 +68,11 @@ func v2Desc(d *types.TableDescription) J {
 	}
 	g := []interface{}{}
 	for _, x := range d.GlobalSecondaryIndexes {
-		g = append(g, J{"name": b2l(aws.ToString(x.IndexName)), "count": aws.ToInt64(x.ItemCount), "schema": ks(x.KeySchema)})
+		g = append(g, J{"name": b2l(aws.ToString(x.IndexName)), "count": aws.ToInt64(x.ItemCount), "schema": ks(x.KeySchema), "proj": v2Proj(x.Projection)})
 	}
 	l := []interface{}{}
 	for _, x := range d.LocalSecondaryIndexes {
-		l = append(l, J{"name": b2l(aws.ToString(x.IndexName)), "count": aws.ToInt64(x.ItemCount), "schema": ks(x.KeySchema)})
+		l = append(l, J{"name": b2l(aws.ToString(x.IndexName)), "count": aws.ToInt64(x.ItemCount), "schema": ks(x.KeySchema), "proj": v2Proj(x.Projection)})
 	}
 	return J{"name": b2l(aws.ToString(d.TableName)), "count": aws.ToInt64(d.ItemCount), "schema": ks(d.KeySchema), "gsi": g, "lsi": l}
 }
@@ -361,4 +361,12 @@ func (s *session) runV2(name string, op J) J {
 		return J{"r": "ok"}
 	}
 	return J{"r": "BadOp"}
+}
+
+// the projection type of an index description ("" when the description carries none)
+func v2Proj(p *types.Projection) string {
+	if p == nil {
+		return ""
+	}
+	return string(p.ProjectionType)
 }
